@@ -55,7 +55,7 @@ P = {
              note="writers obey the std::io::Write contract", ref="5/C15"),
  "C16": dict(engine="E1", technique="bounded exhaustive enumeration: all chunkings over a chunk alphabet across refills, all operation histories <=3, samplers as functions of all RNG byte patterns",
              text="BlakeRNG output vs. an independent blake3 recomputation under every chunking; freshness of masks/seeds over all histories of length <=3; exact push-forward distribution of the samplers by enumerating their RNG inputs.",
-             note="statistical quality beyond these exact statements is out of scope", ref="5/C16"),
+             note="statistical quality beyond these exact statements is out of scope. The samplers are compared pointwise with the reference mapping of the pinned commit first; when the mapping differs (a refactor may read the generator differently) the structure is discovered by probing and the exhaustive families are rebuilt on it (all 2^21 patterns of either half of the binomial sampler, all 2^32 u32 draws of the ternary one); a structure that is not recognised is reported as undecided (exhaustive=false), never as a violation; the byte stream itself is compared with an independent blake3 recomputation", ref="5/C16"),
  "C17": dict(engine="E3", technique="stateless model checking: depth-first enumeration of all thread schedules at the RwLock operations of the three caches (iterated preemption bound) on the real code",
              text="All interleavings of 2-3 threads (4 at preemption bound 2) at every lock acquisition of the secret-key-power caches and the Galois table cache are executed on real OS threads under a cooperative scheduler; each thread's result must equal the sequential result, cache lengths must be monotone, no deadlock.",
              note="lock-operation granularity; weak memory not modelled (no atomics in the crate)", ref="5/C17"),
